@@ -82,6 +82,12 @@ def check(case):
         mk, rk = run(out, Wk, family, case, 'k')
         spec_k = np.array(rk[1], dtype=float, copy=True)
         tau_k = np.array(rk[2], dtype=float, copy=True)
+        # the same model object evaluated again (as a sampler does) gives the same spectrum
+        out.applies('repeatable')
+        with np.errstate(all='ignore'):
+            rk2 = cut(out, 'k-model', mk.model)
+        if not np.array_equal(np.asarray(rk2[1]), spec_k, equal_nan=True):
+            out.fail('repeatable@' + family, 'second k-mode evaluation differs (max rel %.2e)' % maxrel(rk2[1], spec_k))
         T = np.array(mk.temperatureProfile, dtype=float, copy=True)
         # cross-section world with the weight-averaged coefficient
         wx = copy.deepcopy(w)
